@@ -66,6 +66,7 @@ ASSUMPTIONS = [
 SIG_FILL_META = 'C20/fill-without-no-store/meta-tile-flag-lost'
 SIG_FILL_WMTS_KML = 'C20/fill-without-no-store/wmts-kml-ignore-cacheable'
 SIG_PRE1970 = 'C20/304-unsound/ims-pre1970'
+SIG_WMSC_FILL_304 = 'C20/304-unsound/uncached-fill-tile/wmsc'
 SIG_REWRITE_META = 'C20/304-unsound/rewritten-by-this-request/meta'
 SIG_REWRITE_SINGLE = 'C20/304-unsound/rewritten-by-this-request/single'
 
@@ -416,6 +417,7 @@ class World(object):
         self.gen = dict(((n, i), 0) for n in LAYER_NAMES for i in range(len(TILES)))
         self.rec = {}            # (layer, tile, svc) -> dict(gen, etag, lm, body) of the last cache-served 200
         self.hist = {}           # (layer, tile) -> [(gen, etag, lm)] of every non-fill 200
+        self.issued = {}         # (layer, tile) -> {etag: set of (stored timestamp, stored size) it was issued for}
         self.creating = {}       # (layer, tile, svc) -> [etag] of creating / refreshing 200 responses
         self.events = {}         # (layer, tile) -> 'c' (conditional request) / 'r' (observed rewrite) string
         self.steps = []
@@ -447,8 +449,9 @@ class World(object):
         if LAYERS[layer][0] != 'file':
             return
         root = self.managers[layer].cache.cache_dir
-        for dirpath, _dirs, files in os.walk(root):
-            for fn in files:
+        for dirpath, dirs, files in os.walk(root):
+            dirs.sort()
+            for fn in sorted(files):
                 p = os.path.join(dirpath, fn)
                 try:
                     s = os.lstat(p)
@@ -642,6 +645,9 @@ class World(object):
             if fam in ('tms', 'wmsc') and path_kind == 'meta' and SIG_FILL_META in self.open_sigs:
                 st_.excluded['fill-tile-request-via-tms-or-wmsc-on-meta-tile-cache'] += 1
                 return []
+            if fam == 'wmsc' and (inm is not None or ims is not None) and SIG_WMSC_FILL_304 in self.open_sigs:
+                st_.excluded['conditional-fill-tile-request-via-wmsc'] += 1
+                inm = ims = None
         if ims_spec[0] == 'pre1970' and SIG_PRE1970 in self.open_sigs:
             st_.excluded['if-modified-since-before-1970'] += 1
             ims = None
@@ -688,7 +694,8 @@ class World(object):
         cls = ['svc:' + svc, 'layer:' + layer, 'status:%d' % r.status,
                'inm:' + (inm_spec[0] if inm is not None else 'none'), 'ims:' + (ims_spec[0] if ims is not None else 'none'),
                'situation:' + ('fill' if upstream_failed else 'cache' if cache_served else
-                               'refreshed' if (rewritten and pre_obs is not None) else 'created' if rewritten else 'other')]
+                               'refreshed' if (rewritten and pre_obs is not None) else 'created' if rewritten else
+                               'refetched-identical' if upstream_called else 'other')]
         if inm is not None and ims is not None:
             cls.append('both-validators')
         if probe:
@@ -722,6 +729,8 @@ class World(object):
                                 'If-None-Match: %s is the current ETag of %s (tile unchanged, served from the cache) but '
                                 'the answer is 200 (If-Modified-Since: %r)' % (inm, where, ims), case))
                     self.rec[(layer, ti, svc)] = {'gen': post_gen, 'etag': etag, 'lm': lm, 'body': body}
+                    if etag:
+                        self.issued.setdefault(key, {}).setdefault(etag, set()).add((post_obs[2], post_obs[1]))
                 else:
                     if etag:
                         self.creating.setdefault((layer, ti, svc), []).append(etag)
@@ -780,8 +789,12 @@ class World(object):
             'none' if ims is None else ('pre1970' if (ims_t is not None and ims_t < 0) else
                                         'unparseable' if ims_t is None else 'date'))
         if post_obs is None:
-            return [core.Violation('C20/304-unsound/tile-not-stored', '304 for %s although no tile is stored '
-                                   '(If-None-Match %r, If-Modified-Since %r)' % (where, inm, ims), case)]
+            sig = 'C20/304-unsound/tile-not-stored'
+            if upstream_failed and svc == 'wmsc':
+                sig = SIG_WMSC_FILL_304
+            return [core.Violation(sig, '304 for %s although no tile is stored%s (If-None-Match %r, If-Modified-Since %r)'
+                                   % (where, ' (upstream answered 500: uncached fill image)' if upstream_failed else '',
+                                      inm, ims), case)]
         cur = self.rec.get((layer, ti, svc))
         if cur is None or cur['gen'] != post_gen:
             if self.is_stale(layer, ti) and not self.failing:
@@ -808,6 +821,19 @@ class World(object):
         if r.get('last-modified') and r.get('last-modified') != lm_now and not rewritten:
             out.append(core.Violation('C20/304-validators/last-modified-differs', '304 carries Last-Modified %r, current '
                                       'is %r: %s' % (r.get('last-modified'), lm_now, where), case))
+        if inm is not None and inm == e_now and not by_date:
+            # the 304 rests on ETag equality alone: the same ETag must not also have been issued for an earlier
+            # version of this tile whose stored timestamp or size differed (DESIGN: "after a rewrite that changed
+            # the validators the old ETag alone never yields 304"; validators derive from timestamp and size)
+            now_meta = (post_obs[2], post_obs[1])
+            other = sorted(m for m in self.issued.get(key, {}).get(inm, ()) if m != now_meta)
+            if other:
+                out.append(core.Violation(
+                    'C20/304-unsound/etag-survives-rewrite',
+                    '304 for %s on If-None-Match %r: this ETag was issued for the tile stored with (timestamp, size) = '
+                    '%r and is still honoured now that the tile is stored with %r' % (where, inm, other[0], now_meta),
+                    case))
+                return out
         if by_etag or by_date:
             if not by_etag and inm is not None:
                 st_.notes['304-by-date-although-presented-etag-does-not-match (RFC 7232 precedence)'] += 1
@@ -945,28 +971,33 @@ class ConditionalMachine(RuleBasedStateMachine):
         layer, ti, svc = self.focus
         self.do({'op': 'get', 'layer': layer, 'tile': ti, 'svc': svc, 'inm': ['none'], 'ims': ['none']})
 
-    @rule(which=FOCUS, layer=st.sampled_from(LAYER_NAMES), ti=st.integers(0, len(TILES) - 1), content=CONTENT)
-    def rewrite(self, which, layer, ti, content):
+    @rule(k=st.integers(0, 7), inm=st.booleans(), ims=st.sampled_from(['none', 'older', 'current']), fmt=FMT,
+          d=st.integers(0, len(DATE_DELTAS) - 1))
+    def get_stale_validators(self, k, inm, ims, fmt, d):
+        layer, ti, svc = self.focus
+        if not inm and ims == 'none':
+            inm = True
+        self.do({'op': 'get', 'layer': layer, 'tile': ti, 'svc': svc,
+                 'inm': ['historical', k] if inm else ['none'], 'ims': ['none'] if ims == 'none' else [ims, d, fmt]})
+
+    @rule(kind=st.sampled_from(['rewrite', 'rewrite', 'rewrite', 'remove', 'expire', 'expire']), which=FOCUS,
+          layer=st.sampled_from(LAYER_NAMES), ti=st.integers(0, len(TILES) - 1), content=CONTENT)
+    def mutate(self, kind, which, layer, ti, content):
         layer, ti, _ = self.target(which, layer, ti)
-        self.do({'op': 'rewrite', 'layer': layer, 'tile': ti, 'content': list(content)})
+        if kind == 'rewrite':
+            self.do({'op': 'rewrite', 'layer': layer, 'tile': ti, 'content': list(content)})
+        elif kind == 'remove':
+            self.do({'op': 'remove', 'layer': layer, 'tile': ti})
+        else:
+            self.do({'op': 'expire', 'layer': layer})
 
-    @rule(which=FOCUS, layer=st.sampled_from(LAYER_NAMES), ti=st.integers(0, len(TILES) - 1))
-    def remove(self, which, layer, ti):
-        layer, ti, _ = self.target(which, layer, ti)
-        self.do({'op': 'remove', 'layer': layer, 'tile': ti})
-
-    @rule(which=FOCUS, layer=st.sampled_from(LAYER_NAMES))
-    def expire(self, which, layer):
-        layer = self.target(which, layer, 0)[0]
-        self.do({'op': 'expire', 'layer': layer})
-
-    @rule(dt=st.integers(0, len(ADVANCES) - 1))
-    def advance(self, dt):
-        self.do({'op': 'advance', 'dt': dt})
-
-    @rule(mode=st.sampled_from(['content', 'content', 'fail']), content=CONTENT)
-    def upstream(self, mode, content):
-        self.do({'op': 'upstream', 'mode': mode, 'content': list(content)})
+    @rule(kind=st.sampled_from(['advance', 'advance', 'content', 'content', 'fail']), dt=st.integers(0, len(ADVANCES) - 1),
+          content=CONTENT)
+    def environment(self, kind, dt, content):
+        if kind == 'advance':
+            self.do({'op': 'advance', 'dt': dt})
+        else:
+            self.do({'op': 'upstream', 'mode': 'fail' if kind == 'fail' else 'content', 'content': list(content)})
 
     def teardown(self):
         if self.w.steps:
@@ -976,11 +1007,11 @@ class ConditionalMachine(RuleBasedStateMachine):
 def machine_shard(shard, nshards, seed, tier):
     st_ = core.Stats()
     if tier == 'quick':
-        n, steps = 1280 // nshards, 30
+        n, steps = 2000 // nshards, 30
     else:
         n, steps = 24000 // nshards, 50
     try:
-        core.run_machine(ConditionalMachine, st_, max_examples=n, seed=seed, step_count=steps, max_signatures=4)
+        core.run_machine(ConditionalMachine, st_, max_examples=n, seed=seed, step_count=steps, max_signatures=2)
     finally:
         close_world()
     return st_
